@@ -117,7 +117,7 @@ theorem evalOp_eq_spec_of (d : Dev) (rx : RxEngine) (o : Op) (l r : Val)
       · simp [Dev.fixed]
       · have := hq hn
         simp only [neqFloatCase, Bool.not_eq_false'] at this
-        simp [ifaceEq, Dev.fixed, this]
+        simp [ifaceEq, this]
     all_goals
       cases hn : d.neqFlt
       · simp [Dev.fixed]
